@@ -1,6 +1,37 @@
+import os
+
+
+def _overlay_extra(cid, tier):
+    """engine/immutable/task.go and merge_out_of_order.go of the tree under test with the two calls that are meant to
+    recover a panic of a compaction / out-of-order merge made effective (in the tree as it is `recover()` sits one call too
+    deep, inside CompactRecovery / MergeRecovery, and recovers nothing: the panic ends the process). One line each is
+    rewritten; nothing else changes. Without the rewrite a panicking reorganisation kills the worker (tool error) instead
+    of being reported as a violation of the history that caused it. If a line is not found (e.g. the recovery was
+    repaired in the tree) the file is left alone."""
+    import checklib
+    out = {}
+    for rel, old, new in (
+        ("engine/immutable/task.go", "\t\t\tCompactRecovery(m.path, group)\n",
+         "\t\t\tif verifErr := recover(); verifErr != nil {\n\t\t\t\tVerifC02Recovered(\"Compact\", verifErr, m.path)\n\t\t\t}\n"),
+        ("engine/immutable/merge_out_of_order.go", "\t\t\tMergeRecovery(m.path, ctx.mst, ctx)\n",
+         "\t\t\tif verifErr := recover(); verifErr != nil {\n\t\t\t\tVerifC02Recovered(\"Merge\", verifErr, m.path)\n\t\t\t}\n"),
+    ):
+        src = os.path.join(checklib.REPO, rel)
+        text = open(src).read()
+        if text.count(old) != 1:
+            checklib.log("C02: recovery call line not found in %s; file not rewritten" % rel)
+            continue
+        dst = os.path.join(checklib.build_dir(cid), "ov_" + os.path.basename(rel))
+        with open(dst, "w") as fh:
+            fh.write(text.replace(old, new))
+        out[src] = dst
+    return out
+
+
 SPEC = dict(
     pkg="engine",
     hooks=["engine", "engine/immutable", "lib/fileops"],
+    overlay_extra=_overlay_extra,
     test="TestVerifC02",
     level="exploration",
     workers=16,
